@@ -95,3 +95,31 @@ Theorem C13_transpose_gather_perm (perm : seq nat) (s : shape) : perm_eq perm (i
 Proof. exact: transpose_gather_perm. Qed.
 Print Assumptions C13_transposeT_involutive.
 Print Assumptions C13_transpose_gather_perm.
+
+(* ---------- sum over an axis, sum of everything, tile, diag as index maps (Reduce.v, ReduceSpec.v) ---------- *)
+From AlgoV Require Import Reduce ReduceSpec.
+Local Open Scope ring_scope.
+(* element j of a scatter-add is the sum over the fibre of j *)
+Theorem C13_scatter_add_nth (V : zmodType) (idx : seq nat) (vals : seq V) n j : size vals = size idx ->
+  nth 0 (scatter_add idx vals n) j = \sum_(k < size idx | nth 0%N idx k == j) nth 0 vals k.
+Proof. exact: scatter_add_nth. Qed.
+Theorem C13_sum_all_fwd_spec (R : comRingType) (s : shape) (x : seq R) : size x = nelem s -> sum_all_fwd s x = [:: \sum_(k < nelem s) x`_k].
+Proof. exact: sum_all_fwd_spec. Qed.
+(* sum over axis a: output element j is the sum of the inputs whose multi-index with axis a removed is j; the index list is in range *)
+Theorem C13_sum_axis_fwd_spec (R : comRingType) (s : shape) (a : nat) (x : seq R) j : size x = nelem s ->
+  (sum_axis_fwd s a x)`_j = \sum_(k < nelem s | nth 0%N (sum_axis_idx s a) k == j) x`_k.
+Proof. exact: sum_axis_fwd_spec. Qed.
+Theorem C13_sum_axis_idx_ok (s : shape) (a : nat) : (a < size s)%N ->
+  size (sum_axis_idx s a) = nelem s /\ all (fun o => (o < nelem (drop_nth a s))%N) (sum_axis_idx s a).
+Proof. exact: sum_axis_idx_ok. Qed.
+Theorem C13_tile_idx_ok (s reps : shape) : size reps = size s ->
+  size (tile_idx s reps) = nelem (tile_shape s reps) /\ all (fun o => (o < nelem s)%N) (tile_idx s reps).
+Proof. exact: tile_idx_ok. Qed.
+Theorem C13_diag_idx_ok (n : nat) : size (diag_idx n) = n /\ all (fun o => (o < n * n)%N) (diag_idx n).
+Proof. exact: diag_idx_ok. Qed.
+Print Assumptions C13_scatter_add_nth.
+Print Assumptions C13_sum_all_fwd_spec.
+Print Assumptions C13_sum_axis_fwd_spec.
+Print Assumptions C13_sum_axis_idx_ok.
+Print Assumptions C13_tile_idx_ok.
+Print Assumptions C13_diag_idx_ok.
